@@ -1524,6 +1524,7 @@ class Generator:
         self.items = []          # metadata of extracted items
         self.clauses = {}        # clause id -> {tags, text, fn}
         self._src_cache = {}
+        self._template_text = ""
 
     # ---- output helpers
     def emit(self, text, info):
@@ -1561,6 +1562,7 @@ class Generator:
 
     def run(self):
         lines = self.read_template(self.template_path)
+        self._template_text = "\n".join(lines)
         i = 0
         while i < len(lines):
             ln = lines[i]
@@ -1724,6 +1726,48 @@ class Generator:
                                 raise ExtractError(f"{file}:{t.line}: `impl {tr} for {who}` is not under contract "
                                                    f"(it runs implicitly; no contract of this unit accounts for it)")
 
+    def n36_inline_consts(self, pieces, file):
+        """N36: an identifier that names a module-level `const NAME: T = E;` of the same source file which the template neither
+        declares nor extracts is replaced by `((E) as T)` (E treated the same way, to depth 4).  A constant IS the value of its
+        initialiser, so this is the same program; it needs no place in the generated file's module tree.  (Before this rule
+        a literal replaced by a new named constant - an everyday edit, and what several seeded changes contain - made the
+        unit UNDECIDED.)  `static` items are left alone (they have an address)."""
+        _, toks = self.src(file)
+        ci = _code_index(toks)
+        top = {it[1]: it for it in _items_in(toks, ci, 0, len(ci)) if it[0] == "const"}
+
+        def known(nm):
+            return re.search(r"\b(const|static)\s+(mut\s+)?" + re.escape(nm) + r"\b", self._template_text) is not None
+
+        def expansion(nm, depth):
+            it = top[nm]
+            a, b = ci[it[2]], ci[it[3] - 1] + 1
+            code_t = [t for t in toks[a:b] if t.kind not in ("ws", "lcomment", "bcomment")]
+            texts = [t.text for t in code_t]
+            if ":" not in texts or "=" not in texts or texts[-1] != ";":
+                raise ExtractError(f"N36: cannot split `const {nm}` into type and initialiser")
+            k0 = texts.index(nm)
+            c = texts.index(":", k0)
+            e = texts.index("=", c)
+            ty = " ".join(texts[c + 1:e])
+            out = []
+            for t in code_t[e + 1:-1]:
+                if t.kind == "ident" and t.text in top and t.text != nm and not known(t.text):
+                    if depth >= 4:
+                        raise ExtractError(f"N36: constants nested too deeply at `{nm}`")
+                    out.append(expansion(t.text, depth + 1))
+                else:
+                    out.append(t.text)
+            return f"(({' '.join(out)}) as {ty})"
+
+        for p in pieces:
+            if not p.dead and p.tkind == "ident" and re.fullmatch(r"[A-Z][A-Z0-9_]+", p.text) and p.text in top and not known(p.text):
+                nm = p.text
+                p.text = expansion(nm, 0)
+                p.kind = "rw"
+                p.tkind = "rwtext"
+                self.applied.add("N36", file, p.line, f"`{nm}`: module-level const unknown to the template, replaced by its initialiser {p.text}")
+
     def emit_impl_header(self, kv):
         file = kv["file"]
         _, toks = self.src(file)
@@ -1795,6 +1839,8 @@ class Generator:
             n17_mut_self(pieces, file, self.applied)
         if opts.get("pubfields"):
             n3_pubfields(pieces, file, self.applied)
+        if loc["kind"] == "fn" and not opts.get("trusted"):
+            self.n36_inline_consts(pieces, file)
         inj = {}   # piece index -> list of (position 'before'|'after', text, clause info)
 
         def add_inj(idx, pos, block_lines, default_id):
@@ -1948,9 +1994,26 @@ class Generator:
                                 ss = ps
                             else:
                                 break
-                    expr = " ".join(CLAUSE_RE.sub("", l).strip() for l in cancel_block.lines).strip()
+                    # one assertion per `//#`-marked group of lines of the cancel block (usually one): separate ids and tags for
+                    # separate claims about the state at a suspension point (e.g. the buffer bound, C17, next to cancel safety, C07)
+                    groups, cur_g = [], []
+                    for l in cancel_block.lines:
+                        if not l.strip():
+                            continue
+                        cur_g.append(l)
+                        if CLAUSE_RE.search(l):
+                            groups.append(cur_g)
+                            cur_g = []
+                    if cur_g:
+                        groups.append(cur_g)
+                    expr_lines = []
+                    for gl in groups:
+                        gb = Block("cancel", gl)
+                        expr = " ".join(CLAUSE_RE.sub("", l).strip() for l in gl).strip()
+                        cname = _cancel_name(gb) or f"{iid}.cancel"
+                        gt = _cancel_tags(gb, tags)
+                        expr_lines.append(f"        assert({expr}); //# {cname}.{n}" + (f" tags={','.join(gt)}" if gt else ""))
                     cname = _cancel_name(cancel_block) or f"{iid}.cancel"
-                    expr_lines = [f"        assert({expr}); //# {cname}.{n}" + (f" tags={','.join(_cancel_tags(cancel_block, tags))}" if _cancel_tags(cancel_block, tags) else "")]
                     if arm:
                         expr_lines = ["        {"] + expr_lines
                         add_inj(si[arm_end(pieces, si, ss)], "after", ["        }"], f"{cname}.{n}")
